@@ -193,6 +193,14 @@ def check_aba(ctx, st, S, A, B, patA, patB, atol, seed, w, tol, fraction=1.0, sa
         if ref["truncated"] or any(g["cls"] == "gray" for k, g in ref["groups"].items()):
             st.count("not_judged_borderline_group_present")
             return 0
+        if list(patB["elements"]) != list(patA["elements"]) and len(patB["elements"]) == len(patA["elements"]) and set(patB["elements"]) <= set(elements_of(S)):
+            # "the structure containing no B beforehand": B's elements all occur in S (the substitute is an element the pattern has
+            # elsewhere, O -> S beside an S), so atoms of S may already form a B - thorough run 15: the S of a neighbouring copy,
+            # reached through an image of a strongly sheared cell, sat where B has its new S. Such structures are not judged.
+            refB = refmatch.search(elements_of(S), np.asarray(S.positions, float), np.array(S.cell, float), list(patB["elements"]), np.asarray(patB["positions"], float), atol)
+            if refB["truncated"] or any(g["cls"] != "non" for g in refB["groups"].values()):
+                st.count("not_judged_structure_contains_B_beforehand")
+                return 0
     S1 = o1["result"]
     events.seed_all(seed)
     left = mofun.find_pattern_in_structure(S1, A, atol=atol)
